@@ -154,14 +154,23 @@ impl Stitch {
                         } else {
                             return Some(entry);
                         }
-                    } else if let Some(hunk) = index_hunks.next().await {
-                        if let Some(last_apath) = hunk.last().map(|entry| entry.apath.clone()) {
-                            self.last_apath = Some(last_apath);
-                        }
-                        *buffered_entries = hunk.into_iter().peekable();
-                        continue;
                     } else {
-                        State::AfterBand(*band_id)
+                        let next_hunk = index_hunks.next().await;
+                        // Hunks that could not be read were skipped: their entries are
+                        // missing from this listing, so say so.
+                        for err in index_hunks.take_errors() {
+                            self.monitor.error(err);
+                        }
+                        if let Some(hunk) = next_hunk {
+                            if let Some(last_apath) = hunk.last().map(|entry| entry.apath.clone())
+                            {
+                                self.last_apath = Some(last_apath);
+                            }
+                            *buffered_entries = hunk.into_iter().peekable();
+                            continue;
+                        } else {
+                            State::AfterBand(*band_id)
+                        }
                     }
                 }
                 State::BeforeBand(band_id) => {
@@ -169,6 +178,12 @@ impl Stitch {
                     match Band::open(&self.archive, *band_id).await {
                         Ok(band) => match band.index().try_iter_available_hunks().await {
                             Ok(mut index_hunks) => {
+                                if let Err(err) =
+                                    check_hunk_numbers(&band, index_hunks.remaining_hunk_numbers())
+                                        .await
+                                {
+                                    self.monitor.error(err);
+                                }
                                 if let Some(last) = &self.last_apath {
                                     index_hunks = index_hunks.advance_to_after(last)
                                 }
@@ -211,6 +226,34 @@ impl Stitch {
             }
         }
     }
+}
+
+/// Check that the hunks present in a band's index are numbered consecutively from zero,
+/// and, if the band is closed and says how many hunks it has, that none are missing.
+///
+/// Missing hunks mean that entries are silently absent from the listing.
+async fn check_hunk_numbers(band: &Band, present: &[u32]) -> Result<()> {
+    let expected_count = match band.get_info().await {
+        Ok(info) => info.index_hunk_count,
+        Err(_) => None, // A damaged tail is reported elsewhere.
+    };
+    let consecutive = present
+        .iter()
+        .enumerate()
+        .all(|(i, hunk_number)| i as u64 == u64::from(*hunk_number));
+    if !consecutive || expected_count.is_some_and(|n| n != present.len() as u64) {
+        return Err(Error::InvalidMetadata {
+            details: format!(
+                "Index hunks are missing from band {}: found {:?}, expected {}",
+                band.id(),
+                present,
+                expected_count.map_or("consecutive numbers from 0".to_owned(), |n| format!(
+                    "{n} hunks"
+                )),
+            ),
+        });
+    }
+    Ok(())
 }
 
 async fn previous_existing_band(archive: &Archive, mut band_id: BandId) -> Option<BandId> {
